@@ -29,6 +29,20 @@ def generate(root, repo, log):
         "LuaFeatures": len(_variants(open(os.path.join(kind, "lua_features.rs")).read(), "LuaFeatures")),
         "LuaLanguageLevel": len(_variants(open(os.path.join(kind, "lua_language_level.rs")).read(), "LuaLanguageLevel")),
     }
+    # T-src: every word `name_to_kind` matches on
+    lexer_rs = open(os.path.join(repo, "crates/emmylua_parser/src/lexer/lua_lexer.rs")).read()
+    m = re.search(r"fn name_to_kind\(.*?\n    \}\n", lexer_rs, re.S)
+    if not m:
+        raise RuntimeError("name_to_kind not found in lexer/lua_lexer.rs")
+    words = []
+    for w in re.findall(r'"([A-Za-z_]+)"\s*(?:\|\s*"[A-Za-z_]+"\s*)*(?:if[^=]*)?=>', m.group(0)):
+        if w not in words:
+            words.append(w)
+    for w in re.findall(r'\|\s*"([A-Za-z_]+)"', m.group(0)):
+        if w not in words:
+            words.append(w)
+    if len(words) < 20:
+        raise RuntimeError(f"only {len(words)} keyword strings found in name_to_kind")
     harness = os.path.join(root, "harness")
     lock = open(os.path.join(root, ".locks", "cargo"), "w")
     fcntl.flock(lock, fcntl.LOCK_EX)
@@ -43,13 +57,13 @@ def generate(root, repo, log):
         raise RuntimeError("vh-syntax does not build against /repo: " + p.stdout[-800:])
     gen_dir = os.path.join(root, "lean", "EmmyVerif", "Gen")
     os.makedirs(gen_dir, exist_ok=True)
-    p = subprocess.run([os.path.join(harness, "target", "debug", "vh-syntax"), "gen-tables", gen_dir, str(ternary_left)],
+    p = subprocess.run([os.path.join(harness, "target", "debug", "vh-syntax"), "gen-tables", gen_dir, str(ternary_left), ",".join(words)],
                        stdout=subprocess.PIPE, stderr=subprocess.STDOUT, text=True)
     if p.returncode != 0:
         raise RuntimeError("vh-syntax gen-tables failed: " + p.stdout[-800:])
     changed = []
     texts = {}
-    for name in ("ClimbTable.lean", "FeaturesTable.lean"):
+    for name in ("ClimbTable.lean", "FeaturesTable.lean", "FeaturesKeywords.lean"):
         new = os.path.join(gen_dir, name + ".new")
         s = open(new).read()
         os.remove(new)
@@ -71,7 +85,8 @@ def generate(root, repo, log):
     }
     if got != counts:
         raise RuntimeError(f"enumeration by execution {got} disagrees with the enum declarations in the source {counts}")
-    return {"tables": ["Gen/ClimbTable.lean", "Gen/FeaturesTable.lean"], "rewritten": changed,
+    return {"tables": ["Gen/ClimbTable.lean", "Gen/FeaturesTable.lean", "Gen/FeaturesKeywords.lean"], "rewritten": changed,
+            "keyword_words": words,
             "ternary_left": ternary_left, "enum_variants": counts,
             "rows": {"token_kinds": got["LuaTokenKind"], "binary_operators": got["BinaryOperator"],
                      "level_x_feature": got["LuaLanguageLevel"] * got["LuaFeatures"]}}
